@@ -2,5 +2,4 @@
 #include <crab/domains/uf_domain.hpp>
 using namespace simd;
 using D = uf_domain<z_number, varname_t>;
-SIM_REGISTER_DOMAIN(uf, D, "uf",
-                    0)
+SIM_REGISTER_DOMAIN(uf, D, "uf", CAP_CORE)
